@@ -293,6 +293,11 @@ func (h *ProposalHandler) CheckInitialSignaturesFromLastCommit(ctx sdk.Context, 
 			h.logger.Error("CheckInitialSignaturesFromLastCommit: failed to unmarshal vote extension", "error", err)
 			// check for initial sig
 		} else if len(voteExt.InitialSignature.SignatureA) > 0 {
+			// the recovery slices the first 64 bytes of each signature
+			if len(voteExt.InitialSignature.SignatureA) < 64 || len(voteExt.InitialSignature.SignatureB) < 64 {
+				h.logger.Error("CheckInitialSignaturesFromLastCommit: initial signature is shorter than 64 bytes")
+				continue
+			}
 			// verify initial sig
 			evmAddress, err := h.bridgeKeeper.EVMAddressFromSignatures(ctx, voteExt.InitialSignature.SignatureA, voteExt.InitialSignature.SignatureB)
 			if err != nil {
